@@ -155,3 +155,22 @@ def regroup(tree):
                                       Node("table:table-row-group", children=[b, Node("table:table-row-group", children=[c])]),
                                       Node("table:table-rows", children=rest)]
     return tree
+
+
+def cover(tree):
+    """every second cell of every row stored as a cell covered by a merge (mirror of Lean's `coverDoc` / `coverCells`)"""
+    def rows_of(element):
+        for child in element.children:
+            if child.tag == "table:table-row":
+                yield child
+            else:
+                for row in rows_of(child):
+                    yield row
+    for body in tree.children:
+        for spreadsheet in body.children:
+            for table in spreadsheet.children:
+                for row in table.children:
+                    for index, cell in enumerate(row.children):
+                        if index % 2 == 1:
+                            cell.tag = "table:covered-table-cell"
+    return tree
